@@ -74,7 +74,8 @@ cdef class TupleRowParser(RowParser):
             # Deserialize bytes to python object
             deserializer = desc.deserializers[i]
             coldesc = desc.coldescs[i]
-            uses_ce = ce_policy and ce_policy.contains_column(coldesc)
+            # a null cell (negative length) has nothing to decrypt
+            uses_ce = buf.size >= 0 and ce_policy and ce_policy.contains_column(coldesc)
             try:
                 if uses_ce:
                     col_type = ce_policy.column_type(coldesc)
